@@ -127,7 +127,9 @@ pub fn build_items(cases: &[crate::engine::Case], n: usize, rng: &mut Rng) -> Ve
         if c.text.len() > 4000 || tree::parse_ok(&c.text).is_none() {
             continue;
         }
-        let cfg = Cfg::new(*rng.pick(&[0usize, 20, 40, 80, 120, fmtx::W_INF]), *rng.pick(&[1usize, 2, 4, 8]), rng.chance(1, 4));
+        // import documents mostly run with reordering on (ties in the sort key must not depend on hash seeds)
+        let reorder = if c.text.contains("#import") { rng.chance(3, 4) } else { rng.chance(1, 4) };
+        let cfg = Cfg::new(*rng.pick(&[0usize, 20, 40, 80, 120, fmtx::W_INF]), *rng.pick(&[1usize, 2, 4, 8]), reorder);
         items.push(Item { text: c.text.clone(), cfg, origin: c.origin.clone() });
         if let Some(t) = twin(&c.text) {
             items.push(Item { text: t, cfg, origin: format!("{}|twin", c.origin) });
